@@ -154,6 +154,27 @@ func normalise(target string) (uri, query, ustr string, ok bool) {
 	return u3.RequestURI(), query, ustr, true
 }
 
+// badHosts: which of the strings DropPort could make of a Host value does net/url refuse
+// (or change) when the URL is rendered and parsed again? Computed with net/url alone.
+func badHosts(h string) []string {
+	cands := []string{h}
+	if i := strings.LastIndex(h, ":"); i >= 0 {
+		cands = append(cands, h[:i])
+	}
+	if i := strings.LastIndex(h, "]"); i >= 1 {
+		cands = append(cands, h[1:i])
+	}
+	out := []string{}
+	for _, c := range cands {
+		u := url.URL{Scheme: "http", Host: c, Path: "/"}
+		u2, err := url.Parse(u.String())
+		if err != nil || u2.Host != c {
+			out = append(out, c)
+		}
+	}
+	return out
+}
+
 // muxWouldRedirect: Go's ServeMux answers 301 by itself for unclean paths.
 func muxWouldRedirect(target string) bool {
 	u, err := url.ParseRequestURI(target)
@@ -202,7 +223,7 @@ func (c RouteCase) sx() sx.V {
 		script = append(script, sx.L(sx.S(hs.Host), sx.L(bs...)))
 	}
 	req := sx.L(sx.S(c.Req.Method), sx.S(c.Req.Host), sx.B(false), sx.S(uri), sx.S(query), sx.S(ustr),
-		kvs(hdrs), sx.S(c.Req.Body), sx.S(remoteIP), sx.S(mintedUUID), sx.S(c.Req.Target))
+		kvs(hdrs), sx.S(c.Req.Body), sx.S(remoteIP), sx.S(mintedUUID), sx.S(c.Req.Target), sx.Strs(badHosts(c.Req.Host)))
 	return sx.L(sx.S("route"), sx.L(secrets, sx.I(int64(c.Retries))), sx.L(rules...), req, sx.L(script...))
 }
 
@@ -412,11 +433,11 @@ func rawRequest(addr string, r Req) (ClientObs, error) {
 			o.Aborted = true
 		}
 	}
-	o.Kind = classify(o)
+	o.Kind = classify(o, r.Method)
 	return o, nil
 }
 
-func classify(o ClientObs) string {
+func classify(o ClientObs, method string) string {
 	if o.Hdrs.Get("Richie-Edge-Cache") != "" {
 		return "origin"
 	}
@@ -425,6 +446,9 @@ func classify(o ClientObs) string {
 		if _, ok := m["Message"]; ok {
 			return "error-json"
 		}
+	}
+	if method == "HEAD" && strings.HasPrefix(o.Hdrs.Get("Content-Type"), "application/json") && o.Status >= 400 {
+		return "error-json" // the body of rrrouter's JSON error is not sent for HEAD
 	}
 	if o.Status == 200 && o.Body == "" {
 		return "recovered"
